@@ -389,8 +389,11 @@ impl LogState {
             self.status = String::new();
         }
         if !line_head.is_empty() {
-            // partial line never got terminated
-            print!("{}", line_head);
+            // partial line never got terminated: terminate it here, or the record that
+            // comes next (the caller's "resumed", the next target's "do") is glued to it,
+            // no longer starts at the beginning of a line and is not recognised as a
+            // record by anything that reads this output
+            println!("{}", line_head);
         }
         if t.as_str() != "-" {
             let last = self.depth.pop();
